@@ -276,6 +276,73 @@ def prop_dispatch(case):
     return {"nontrivial": bool(n > 1), "tags": [case["residual_function"], "nnls_differs_from_vp" if differs else "same"]}
 
 
+def dispatch_fault_cases(tier):
+    out = []
+    for rf in ("variable_projection", "non_negative_least_squares"):
+        for k in range(3, 13 if tier == "quick" else 25):
+            for seed in range(2 if tier == "quick" else 8):
+                for method in ("TrustRegionReflection", "Levenberg-Marquardt"):
+                    out.append({"residual_function": rf, "k": k, "seed": seed, "method": method})
+    return out
+
+
+def prop_dispatch_fault(case):
+    """The clps and residuals of a Result that optimize() returns after the model raised at some evaluation (contained) are
+    still the solution of the linear problem for the matrix that Result reports: residual = data - matrix clp, orthogonal to
+    the columns (VP) / KKT (NNLS), at every index of every dataset."""
+    import warnings
+
+    import xarray as xr
+
+    from glotaran.optimization.optimize import optimize
+    from glotaran.project import Scheme
+    from vlib import testmc
+
+    rng = np.random.default_rng(100 + case["seed"])
+    n, m = 2, 12
+    t = np.linspace(0, 5, m)
+    spec = {
+        "dataset_groups": {"default": {"residual_function": case["residual_function"], "link_clp": False}},
+        "megacomplex": {"m": {"type": "verif-table", "labels": ["s0", "s1"], "rates": ["r.1", "r.2"], "shape": "exp", "fault": True}},
+        "dataset": {"d1": {"megacomplex": ["m"]}, "d2": {"megacomplex": ["m"]}},
+    }
+    model, params = testmc.make_model(spec, {"r": [0.3, 1.1]})
+    data = {}
+    for lab, gax in (("d1", [1.0, 2.5]), ("d2", [2.5, 4.0, 5.0])):
+        Y = rng.standard_normal((m, len(gax))) + 2
+        data[lab] = xr.DataArray(Y, coords=[("model", t), ("global", gax)]).to_dataset(name="data")
+    scheme = Scheme(model, params, data, maximum_number_function_evaluations=3, optimization_method=case["method"])
+    testmc.reset_fault({"kind": "raise_at", "k": case["k"]})
+    try:
+        with warnings.catch_warnings():
+            warnings.simplefilter("ignore")
+            try:
+                res = optimize(scheme, verbose=False, raise_exception=False)
+            except Exception as e:  # noqa: BLE001  (whether the failure is contained is C15's subject)
+                raise Discard(f"optimize raised {type(e).__name__}") from None
+        fired = any(not e["ok"] for e in testmc.FAULT["log"])
+    finally:
+        testmc.reset_fault(None)
+    nnls = case["residual_function"] == "non_negative_least_squares"
+    for lab in ("d1", "d2"):
+        ds = res.data[lab]
+        A = ds.matrix.transpose("model", "clp_label").values
+        for g in ds.coords["global"].values:
+            y = ds.data.sel({"global": g}).transpose("model").values
+            c = ds.clp.sel({"global": g}).values
+            r = ds.residual.sel({"global": g}).values
+            sc = np.abs(y).max()
+            check(np.abs(y - A @ c - r).max() <= 1e-9 * sc, "dispatch_fault.residual_identity", lambda: f"{lab}@{g}: |data - matrix clp - residual| = {np.abs(y - A @ c - r).max():.3e}")
+            grad = A.T @ r
+            if nnls:
+                check(bool(np.all(c >= 0)), "dispatch_fault.nnls_nonneg", lambda: f"{lab}@{g}: {c}")
+                ok = all((abs(gj) <= 1e-7 * sc * np.linalg.norm(A[:, j])) if cj > 0 else (gj <= 1e-7 * sc * np.linalg.norm(A[:, j])) for j, (cj, gj) in enumerate(zip(c, grad)))
+                check(ok, "dispatch_fault.nnls_kkt", lambda: f"{lab}@{g}: clp {c} gradient {grad}")
+            else:
+                check(np.abs(grad).max() <= 1e-9 * sc * np.linalg.norm(A), "dispatch_fault.orthogonal", lambda: f"{lab}@{g}: |matrix^T residual| = {np.abs(grad).max():.3e}")
+    return {"nontrivial": bool(fired), "tags": [case["residual_function"], case["method"], "fault_fired" if fired else "fault_not_reached", f"success={res.success}"]}
+
+
 PROPERTY = Property(
     id="C01",
     level="exploration",
@@ -291,6 +358,8 @@ PROPERTY = Property(
         Sub("nnls", prop=prop, strategy=lambda: instances("nnls"), budget={"quick": 1500, "thorough": 150000}),
         Sub("dispatch", prop=prop_dispatch, enumerate=dispatch_cases, exhaustive=False,
             doc="optimize() on a one-index dataset returns the selected kernel's clp/residual"),
+        Sub("dispatch_after_fault", prop=prop_dispatch_fault, enumerate=dispatch_fault_cases, exhaustive=False,
+            doc="two unlinked datasets, the model raises at the k-th evaluation (contained): the returned Result's clps/residuals solve the linear problem of its own matrix"),
     ],
     assumptions=[
         "numpy SVD least squares (LAPACK gelsd) and subset enumeration are trusted as reference",
